@@ -93,10 +93,26 @@ func qualifiedName(n *types.Named) string {
 	if o.Pkg() != nil {
 		s = o.Pkg().Path() + "." + s
 	}
+	if ta := n.TypeArgs(); ta != nil && ta.Len() > 0 {
+		var as []string
+		for i := 0; i < ta.Len(); i++ {
+			as = append(as, types.TypeString(ta.At(i), func(p *types.Package) string { return p.Name() }))
+		}
+		s += "[" + strings.Join(as, ",") + "]"
+	}
+	return s
+}
+
+// baseName strips the type arguments of a generic struct name (ghost fields and monitors are declared per generic type).
+func baseName(s string) string {
+	if i := strings.Index(s, "["); i >= 0 {
+		return s[:i]
+	}
 	return s
 }
 
 func shortStructName(full string) string {
+	full = baseName(full)
 	if i := strings.LastIndex(full, "."); i >= 0 {
 		return full[i+1:]
 	}
@@ -274,7 +290,7 @@ func (e *Exec) Sort(t *Type) string {
 				fs = append(fs, fmt.Sprintf("(%s!%s %s)", n, f.Name(), e.Sort(ft)))
 			}
 		}
-		for _, g := range e.prog.ghostFields[t.Name] {
+		for _, g := range e.prog.ghostFields[baseName(t.Name)] {
 			fs = append(fs, fmt.Sprintf("(%s!%s %s)", n, g.Name, e.Sort(g.Type)))
 		}
 		if len(fs) == 0 {
@@ -301,7 +317,7 @@ func (e *Exec) fieldsOf(t *Type) []fieldInfo {
 			out = append(out, fieldInfo{f.Name(), e.prog.TypeOf(f.Type(), t.Subst), false})
 		}
 	}
-	for _, g := range e.prog.ghostFields[t.Name] {
+	for _, g := range e.prog.ghostFields[baseName(t.Name)] {
 		out = append(out, fieldInfo{g.Name, g.Type, true})
 	}
 	return out
